@@ -8,8 +8,15 @@ package ast
 //@   requires i != nil
 //@   requires reference.Start <= reference.End && reference.End <= len(i.RawBytes)
 //@   ensures len(result) == reference.End - reference.Start
+//@   ensures {the.referenced.bytes} result == i.RawBytes[reference.Start:reference.End]
 //@   pure
 //@   safety nil
+
+//@ func Document.FieldNameBytes
+//@   requires d != nil
+//@   assumes {parser.refs.in.range} 0 <= ref && ref < len(d.Fields) && d.Fields[ref].Name.Start <= d.Fields[ref].Name.End && d.Fields[ref].Name.End <= len(d.Input.RawBytes)
+//@   ensures {the.bytes.of.the.field.name} result == d.Input.RawBytes[d.Fields[ref].Name.Start:d.Fields[ref].Name.End]
+//@   pure
 
 // Document accessors used by variables validation: assumed pure functions of the (immutable during
 // validation) document, abstracted by uninterpreted spec functions.
@@ -61,3 +68,7 @@ package ast
 //@ func ByteSlice.String
 //@   pure
 //@   trusted zero-copy conversion
+
+//@ func ByteSliceReference.Length
+//@   ensures b.Start <= b.End ==> result == b.End - b.Start
+//@   pure
